@@ -4,21 +4,21 @@ mod verif_kani {
     use super::*;
 
     /// K-getrange (bounded stand-in for the assumed contract O-C05-getrange):
-    /// ring buffers of <= 4 bytes at every rotation; any pair of bounds; result == model[start..end].
+    /// ring buffers of <= 3 bytes (capacity 4) at every rotation; any pair of bounds; result == model[start..end].
     #[kani::proof]
-    #[kani::unwind(7)]
+    #[kani::unwind(5)]
     fn k_getrange() {
         // build a ring with a symbolic rotation: push `pre` bytes, drop them, push the content
         let mut rb = RollingBuffer::new();
         rb.buffer.reserve_exact(4);
         let pre: usize = kani::any();
-        kani::assume(pre <= 4);
+        kani::assume(pre <= 3);
         let mut i = 0;
         while i < pre { rb.buffer.push_back(0xEE); i += 1; }
         let mut i = 0;
         while i < pre { rb.buffer.pop_front(); i += 1; }
         let n: usize = kani::any();
-        kani::assume(n <= 4);
+        kani::assume(n <= 3);
         let content: [u8; 4] = kani::any();
         let mut i = 0;
         while i < n { rb.buffer.push_back(content[i]); i += 1; }
